@@ -127,8 +127,8 @@ def run(ctx):
     model = C.build_model(ID)
     rng = ctx.rng
     thorough = ctx.tier == "thorough" or not ctx.proof_ok
-    n_ring = 1800 if thorough else 200
-    n_bb = 420 if thorough else 44
+    n_ring = 4000 if thorough else 520
+    n_bb = 1000 if thorough else 110
 
     # ---------------------------------------------------------------- ring scripts
     rcases = ring_corpus()
